@@ -349,7 +349,7 @@ class Gen:
             self.flags.add("from-fields")
             return self.do({"op": "fromFields", "times": ts, "fids": fids, "mode": r.choice(W.MODES[:3])})
         if k == "poke":
-            if n == 0:
+            if n == 0 or len(st.data) != n:
                 return None
             i = r.randrange(n)
             self.flags.add("mutation")
@@ -423,9 +423,16 @@ class Gen:
 
     def generate(self):
         guard = 0
-        while len(self.ops) < self.length and guard < 10 * self.length:
+        while len(self.ops) < self.length and guard < 10 * self.length and self.monitoring:
             guard += 1
-            self.step()
+            try:
+                self.step()
+            except Exception as e:  # noqa: BLE001 - the real objects are in a state the generator cannot use
+                if self.monitoring:
+                    self.failures.append({**Monitor._fail(
+                        f"storage left in an inconsistent state ({type(e).__name__}: {e})", {}, {}, "inconsistent-state"),
+                        "step": len(self.ops) - 1})
+                    self.monitoring = False
         return self
 
     def nontrivial(self):
@@ -548,18 +555,66 @@ def check_against_model(ctx, list_of_steps):
 
 
 # ------------------------------------------------------------------------------------------
-def shrink(ctx, ops, still_fails, max_rounds=60):
-    """greedy removal of operations while `still_fails(list of candidate op lists) -> [bool]`"""
+def created_objects(ops):
+    """for every op: ('f'|'s', index) of the object it created on the real code, or None"""
+    world = W.RealWorld()
+    out = []
+    for op in ops:
+        nf, ns = len(world.fields), len(world.stores)
+        world.execute(op)
+        out.append(("f", nf) if len(world.fields) > nf else (("s", ns) if len(world.stores) > ns else None))
+    return out
+
+
+def remove_op(ops, k, created):
+    """ops without op k; if op k created an object, later references are renumbered and the
+    operations that used the object are dropped"""
+    c = created[k]
+    out = []
+    for i, op in enumerate(ops):
+        if i == k:
+            continue
+        if c is None or i < k:
+            out.append(op)
+            continue
+        op = dict(op)
+        keys = ["fid"] if c[0] == "f" else ["sid", "out"]
+        drop = False
+        for key in keys:
+            v = op.get(key)
+            if isinstance(v, int):
+                if v == c[1]:
+                    drop = True
+                elif v > c[1]:
+                    op[key] = v - 1
+        if c[0] == "f" and "fids" in op:
+            if c[1] in op["fids"]:
+                drop = True
+            else:
+                op["fids"] = [v - 1 if v > c[1] else v for v in op["fids"]]
+        if not drop:
+            out.append(op)
+    return out
+
+
+def shrink(ctx, ops, still_fails, max_rounds=80):
+    """greedy removal of operations (chunks first, then single operations with renumbering of the
+    objects they created) while `still_fails(list of candidate op lists) -> [bool]`"""
     cur = list(ops)
     for _ in range(max_rounds):
         if len(cur) <= 1:
             break
         cands = []
-        for size in sorted({max(1, len(cur) // 2), max(1, len(cur) // 4), 1}, reverse=True):
+        for size in sorted({max(2, len(cur) // 2), max(2, len(cur) // 4)}, reverse=True):
             for start in range(0, len(cur), size):
                 c = cur[:start] + cur[start + size:]
                 if c and c not in cands:
                     cands.append(c)
+        created = created_objects(cur)
+        for k in range(len(cur) - 1, -1, -1):
+            c = remove_op(cur, k, created)
+            if c and c not in cands:
+                cands.append(c)
         res = still_fails(cands)
         nxt = next((c for c, bad in zip(cands, res) if bad), None)
         if nxt is None:
@@ -664,64 +719,67 @@ def bisect_leg(ctx):
             ctx.disagree("bisect", {"times": ts, "x": x}, ans[1], real, "searchsorted")
 
 
-def solver_leg(ctx):
-    """StorageTracker filled by the real controller: two solver runs into one storage per mode;
-    frames must equal the states seen by a CallbackTracker at the same interrupts, and the trace
-    (start, appends, end) replayed on the model must give the same storage"""
+def solver_case(cfg):
+    """two (or more) real solver runs writing into ONE storage through `storage.tracker()`.
+    cfg = {"mode": m, "runs": [{"init": [4 values], "t_range": T}, ...]}.
+    -> (monitor failure or None, model steps): the frames must equal the states a CallbackTracker
+    saw at the same interrupts; the sessions (start, appends, end) are also replayed on the model."""
     import logging
     import numpy as np
     from pde import CallbackTracker, DiffusionPDE, MemoryStorage, ScalarField, UnitGrid
+    from harness.common.c20_spec import Cell
     logging.disable(logging.WARNING)
+    recipe = {"grid": "u4", "kind": "scalar", "label": None}
+    grid = UnitGrid([4])
+    st = MemoryStorage(write_mode=cfg["mode"])
+    world = W.RealWorld()
+    world.stores.append(st)
+    mon = Monitor(world)
+    op0 = {"op": "newStore", "mode": cfg["mode"]}
+    mon.after(op0, None, None)
+    steps = [{"err": None, "obs": {"store": 0}, "snap": world.snapshot(), "mop": op0}]
+    bad = None
+    for run in cfg["runs"]:
+        state = ScalarField(grid, list(run["init"]))
+        seen = []
+        cb = CallbackTracker(lambda s_, t: seen.append((t, W.flat(s_.data))), interrupts=0.5)
+        DiffusionPDE(diffusivity=0.25).solve(state, t_range=run["t_range"], dt=0.25, backend="numpy",
+                                             tracker=[st.tracker(0.5), cb])
+        fid0 = len(world.fields)
+        for vals in [seen[0][1]] + [v for _t, v in seen]:
+            f = W.build_field(recipe, list(vals))
+            world.fields.append(f)
+            steps.append({"err": None, "obs": None, "snap": None,
+                          "mop": {"op": "newField", "info": W.info_of(f), "vals": [W.q(v) for v in vals]}})
+        sess = [{"op": "start", "sid": 0, "fid": fid0}] + \
+               [{"op": "append", "sid": 0, "fid": fid0 + 1 + j, "t": float(t)} for j, (t, _v) in enumerate(seen)] + \
+               [{"op": "end", "sid": 0}]
+        sp = mon.specs[0]
+        for op in sess:
+            mop = dict(op)
+            if op["op"] == "append":
+                mop["t"] = W.q(op["t"])
+                sp.log.append((op["t"], Cell(vals=W.flat(world.fields[op["fid"]].data))))
+            elif op["op"] == "start":
+                if sp.mode == "truncate" or (sp.mode == "truncate_once" and sp.fresh):
+                    sp.log = []
+                sp.fresh = False
+            steps.append({"err": None, "obs": None, "snap": None, "mop": mop})
+        steps[-1]["snap"] = world.snapshot()
+        bad = bad or mon.check_contents(touched=0)
+    return bad, steps
+
+
+def solver_leg(ctx):
     rng = ctx.sub_rng("solver")
     traces = []
     for mode in W.MODES[:3]:
         for _rep in range(ctx.budget(1, 4)):
-            grid = UnitGrid([4])
-            st = MemoryStorage(write_mode=mode)
-            ops = [{"op": "newStore", "mode": mode}]
-            world = W.RealWorld()
-            world.stores.append(st)
-            mon = Monitor(world)
-            mon.after(ops[0], None, None)
-            steps = [{"err": None, "obs": {"store": 0}, "snap": world.snapshot(), "mop": ops[0]}]
-            bad = None
-            for run_i in range(2):
-                state = ScalarField(grid, [rng.randint(-8, 8) / 2 for _ in range(4)])
-                seen = []
-                cb = CallbackTracker(lambda s, t: seen.append((t, W.flat(s.data))), interrupts=0.5)
-                DiffusionPDE(diffusivity=0.25).solve(state, t_range=rng.choice([1, 1.5]), dt=0.25, backend="numpy",
-                                                     tracker=[st.tracker(0.5), cb])
-                # the session as the storage saw it: start_writing(state0), append per interrupt
-                fid0 = len(world.fields)
-                for t, vals in [(None, seen[0][1])] + seen:
-                    f = ScalarField(grid, np.array(vals))
-                    world.fields.append(f)
-                    op = {"op": "newField", "vals": list(vals)}
-                    mop = {"op": "newField", "info": W.info_of(f), "vals": [W.q(v) for v in vals]}
-                    steps.append({"err": None, "obs": None, "snap": None, "mop": mop})
-                    ops.append(op)
-                sess = [{"op": "start", "sid": 0, "fid": fid0}] + \
-                       [{"op": "append", "sid": 0, "fid": fid0 + 1 + j, "t": t} for j, (t, _v) in enumerate(seen)] + \
-                       [{"op": "end", "sid": 0}]
-                # specification: apply the session to the monitor's log, then compare with the storage
-                for op in sess:
-                    mop = dict(op)
-                    if op["op"] == "append":
-                        mop["t"] = W.q(op["t"])
-                    ops.append(op)
-                    steps.append({"err": None, "obs": None, "snap": None, "mop": mop})
-                    sp = mon.specs[0]
-                    if op["op"] == "start":
-                        if sp.mode == "truncate" or (sp.mode == "truncate_once" and sp.fresh):
-                            sp.log = []
-                        sp.fresh = False
-                    elif op["op"] == "append":
-                        from harness.common.c20_spec import Cell
-                        sp.log.append((op["t"], Cell(vals=W.flat(world.fields[op["fid"]].data))))
-                steps[-1]["snap"] = world.snapshot()
-                ctx.monitor_evals += 1
-                bad = bad or mon.check_contents(touched=0)
-            case = {"solver": mode, "ops": ops}
+            cfg = {"mode": mode, "runs": [{"init": [rng.randint(-8, 8) / 2 for _ in range(4)],
+                                            "t_range": rng.choice([1, 1.5])} for _ in range(2)]}
+            bad, steps = solver_case(cfg)
+            case = {"solver": cfg}
+            ctx.monitor_evals += len(cfg["runs"])
             ctx.count(case, nontrivial=True, leg="solver")
             if bad:
                 ctx.monitor_fail("solver", case, bad["observed"], bad["expected"],
@@ -733,7 +791,7 @@ def solver_leg(ctx):
         if ans[0] != "ok":
             ctx.disagree("solver", case, ans[1], None, "model error")
             continue
-        # compare only where a snapshot was taken (end of each session): accumulate the model state
+        # compare where a snapshot was taken (end of each session): accumulate the model state
         sub_real, sub_model = [], []
         acc = {"stores": {}, "fields": {}}
         for real, mod in zip(steps, ans[1]):
@@ -743,7 +801,7 @@ def solver_leg(ctx):
                 acc["fields"][idx] = d
             if real["snap"] is not None:
                 sub_real.append(real)
-                sub_model.append({"err": mod["err"], "obs": mod["obs"] if real["obs"] is not None else None,
+                sub_model.append({"err": mod["err"], "obs": None,
                                   "stores": sorted(acc["stores"].items()), "fields": sorted(acc["fields"].items()),
                                   "ns": mod["ns"], "nf": mod["nf"]})
                 acc = {"stores": {}, "fields": {}}
@@ -774,7 +832,7 @@ def search(ctx, broken):
     found = []
     for d in broken:
         c = d.get("case") if isinstance(d, dict) else None
-        if not c or "ops" not in c or "solver" in c:
+        if not c or "ops" not in c:
             continue
         r = exec_ops(c["ops"])
         for f in r["failures"]:
@@ -800,6 +858,11 @@ def search(ctx, broken):
 
 def replay(ctx, rep):
     c = rep["case"]
+    if "solver" in c:
+        bad, _steps = solver_case(c["solver"])
+        print("solver case:", c["solver"])
+        print("monitor:", (bad["what"], bad["observed"], bad["expected"]) if bad else "holds")
+        return bad is None
     r = exec_ops(c["ops"])
     for i, (op, s) in enumerate(zip(c["ops"], r["steps"])):
         print(f"{i:3d} {op}  ->  {s['err'] or 'ok'}")
